@@ -30,7 +30,8 @@ TEMPLATES = ["{a} + {b}", "{a} + [4]", "{a} + \"4]\"", "[*{a}, 4]", "[*{a}, *{b}
              "{a}$(nil){{|p| keep(p)}}", "{a}${{keep(\\)}}", "{a}$([]){{|acc, x| keep([*acc, x])}}", "{a}@{{|x| keep([x, {b}])}}", "{a}@{{|x| keep(x)}}", "{a}~$(nil){{|p| keep(p)}}",
              "{a}$(nil)^keep", "{a}@^keep", "keep({a}) + keep({b})", "keep({a}).push(keep({b}))", "{{|*xs| keep(xs)}}(*{a}, *{b})@{{|x| keep(x)}}", "{{|**o| keep(o)}}(**{a}, **{b}).bear({{q: keep(\\)}})",
              "{a}.A@{{|x| keep(x)}}.sort", "{a}.A$(keep([])){{|acc, x| keep(acc + [x])}}", "%{{**{a}}}.items@{{|kv| keep(kv)}}.M", "{a}.items@{{|kv| keep(kv)}}.O",
-             "{a}.try.fmap{{|x| keep(x)}}.fmap{{|x| keep([x])}}.A", "keep({a}.try).or({b})", "keep(\"#{{keep({a})}}#{{keep({b})}}\")"]
+             "{a}.try.fmap{{|x| keep(x)}}.fmap{{|x| keep([x])}}.A", "keep({a}.try).or({b})", "keep(\"#{{keep({a})}}#{{keep({b})}}\")",
+             "{a}(1)", "{a}({b})", "{a}(1, 2, k: 3)", "{a}.call({b}, {b})", "[{b}]@{{|x| {a}(x)}}", "{b}.{{|x| {a}(x)}}"]
 
 
 def hh(s):
